@@ -14,7 +14,7 @@ import numpy as np
 
 from ..poly import z3mod, Poly
 from ..dromodels import CompiledDRO, dro_viol, dro_hold, dro_row_terms, piece_polys
-from ..drogen import members
+from ..drogen import members, lookup
 from ..smt import HarnessError, fval
 from ..harness import finding
 from ..util import quiet
@@ -43,15 +43,27 @@ META = dict(
 
 
 def cases(tier, seed, rnd):
-    return [dict(name=n) for n in members()]
+    n = 12 if tier == 'quick' else 400
+    return [dict(name=n_) for n_ in members()] + [dict(name='rand%d' % rnd.randint(0, 10 ** 6)) for _ in range(n)]
 
 
 def run_case(case, ses):
     z3 = z3mod()
     name = case['name']
-    desc = members()[name]
-    with quiet():
-        cm = CompiledDRO(desc)
+    desc = lookup(name)
+    try:
+        with quiet():
+            cm = CompiledDRO(desc)
+    except HarnessError:
+        raise
+    except Exception as e:
+        if name.startswith('rand'):
+            # a seeded random member that rsome itself rejects (raises while formulating) carries no information
+            ses.stats.kinds['member-rejected-by-rsome'] = ses.stats.kinds.get('member-rejected-by-rsome', 0) + 1
+            if len(ses.stats.notes) < 10:
+                ses.stats.notes.append('%s: rsome raised %s: %s' % (name, type(e).__name__, str(e)[:80]))
+            return
+        raise
     ses.stats.programs += 1
     cp = cm.cp
     vs = cp.z3vars()
@@ -145,7 +157,7 @@ def replay(data, verbose=False, want_info=False):
     violates the row (evaluated with exact rationals from the oracle and listed)."""
     name = data['name']
     with quiet():
-        cm = CompiledDRO(members()[name])
+        cm = CompiledDRO(lookup(name))
     v = data['v']
     info = {}
     bad = cm.cp.check_point(v, tol=Fraction(1, 10 ** 7))
